@@ -21,7 +21,7 @@ import (
 // function + ":" + construct text. A construct that is neither discharged by
 // a rule nor listed here is reported.
 var panicTable = map[string]string{
-	"recursion:func(*registry.Package, *registry.Package, int):·,·,param+c":     "conflict resolution one level deeper with the third-party holder of a wanted name: that holder is never a member of the pair (checked in the condition); beyond the deepest path level the wanted name is constant and has one holder, so a frame there either assigns or meets the equal-names branch, which is bounded by depth() and ends in numbering",
+	"recursion:func(*registry.Package, *registry.Package, int):·,·,param+c":     "conflict resolution one level deeper with the holder of a wanted name (argument by hand): when the other member of the pair holds the name wanted for the first, it is renamed first, so a member of the pair is recursed on only if it still holds the name after its own renaming; beyond the deepest path level the wanted names are constant, a frame there either assigns or meets the equal-names branch, which is bounded by depth() and ends in numbering. Not excluded by this argument: two registered packages that each hold, through source aliases, the full-path name of the other. The witnesses that once ran away are interpreted on every run (G-PANIC/conflict-table)",
 	"recursion:func(*registry.Package, *registry.Package, int):param,·,param+c": "as above, written in a helper that receives the package as a parameter",
 }
 
